@@ -303,10 +303,47 @@ class _SymOrder(ast.NodeTransformer):
         return n
 
 
+class _KwargKeys(ast.NodeTransformer):
+    """for the ** parameter K of a function (always a dict): set(list(K.keys())), set(K.keys()), set(list(K)) -> set(K); `x in K.keys()` -> `x in K`"""
+
+    def __init__(self, names):
+        self.names = names
+
+    def _is_keys(self, e):
+        if isinstance(e, ast.Call) and isinstance(e.func, ast.Attribute) and e.func.attr == "keys" and not e.args and path_of(e.func.value) in self.names:
+            return e.func.value
+        if isinstance(e, ast.Call) and call_name(e) == "list" and len(e.args) == 1:
+            inner = self._is_keys(e.args[0])
+            if inner is not None:
+                return inner
+            if path_of(e.args[0]) in self.names:
+                return e.args[0]
+        return None
+
+    def visit_Call(self, n):
+        self.generic_visit(n)
+        if call_name(n) == "set" and len(n.args) == 1 and not n.keywords:
+            k = self._is_keys(n.args[0])
+            if k is not None:
+                return ast.copy_location(ast.Call(func=n.func, args=[k], keywords=[]), n)
+        return n
+
+    def visit_Compare(self, n):
+        self.generic_visit(n)
+        if len(n.ops) == 1 and isinstance(n.ops[0], (ast.In, ast.NotIn)):
+            k = self._is_keys(n.comparators[0])
+            if k is not None:
+                return ast.copy_location(ast.Compare(left=n.left, ops=n.ops, comparators=[k]), n)
+        return n
+
+
 def alpha(f):
     """two passes: first every comprehension variable gets a globally unique name (no capture possible), then the canonical _k<depth>"""
     f = _AlphaComp(True).visit(f)
     f = _AlphaComp(False).visit(f)
+    kw = {a.kwarg.arg for a in [getattr(f, "args", None)] if a is not None and a.kwarg}
+    if kw:
+        f = _KwargKeys(kw).visit(f)
     return _SymOrder().visit(f)
 
 
@@ -422,10 +459,25 @@ def _inline_call(call: ast.Call, helper: ast.FunctionDef, skip: int, make_tail, 
     """statement list equivalent to running `helper` with the call's arguments; `make_tail(expr)` turns a returned expression into the
     statement that consumes it. None if the call shape is not supported."""
     a = helper.args
-    if a.vararg or a.kwarg or a.posonlyargs or any(k.arg is None for k in call.keywords):
+    star_kw = [k for k in call.keywords if k.arg is None]
+    star_pos = [x for x in call.args if isinstance(x, ast.Starred)]
+    extra_binding: Dict[str, ast.expr] = {}
+    if a.posonlyargs:
         return None
-    if any(isinstance(x, ast.Starred) for x in call.args):
-        return None
+    # *args / **kwargs are supported when they are passed straight through (`helper(..., *args, **kwargs)` into `def helper(..., *args, **kwargs)`)
+    if star_kw:
+        if not a.kwarg or len(star_kw) != 1:
+            return None
+        extra_binding[a.kwarg.arg] = star_kw[0].value
+    elif a.kwarg:
+        extra_binding[a.kwarg.arg] = ast.Dict(keys=[], values=[])
+    if star_pos:
+        if not a.vararg or len(star_pos) != 1 or call.args[-1] is not star_pos[0]:
+            return None
+        extra_binding[a.vararg.arg] = star_pos[0].value
+    elif a.vararg:
+        extra_binding[a.vararg.arg] = ast.Tuple(elts=[], ctx=ast.Load())
+    call = ast.Call(func=call.func, args=[x for x in call.args if not isinstance(x, ast.Starred)], keywords=[k for k in call.keywords if k.arg is not None])
     allp = [x.arg for x in a.args]
     params = allp[skip:]
     defmap = {allp[len(allp) - len(a.defaults) + i]: d for i, d in enumerate(a.defaults)}
@@ -445,6 +497,7 @@ def _inline_call(call: ast.Call, helper: ast.FunctionDef, skip: int, make_tail, 
             if p_ not in defmap:
                 return None
             binding[p_] = defmap[p_]
+    binding.update(extra_binding)
     body = [s for s in clone(helper.body) if not (isinstance(s, ast.Expr) and isinstance(s.value, ast.Constant) and isinstance(s.value.value, str))]
     body = _norm_block(body)
     if not _tail_returns_only(body):
